@@ -4,10 +4,13 @@ Proof (decoded level): Loader.v theorems.  Search: fault enumeration on the real
 single-file deletion, empty file, truncation offsets, single-bit flips, zeroed ranges, and the
 cross-file inconsistencies of the property's list — start-up, a request on every endpoint,
 /updateCache?names=all, requests again; the process must stay up and every answer must be a
-well-formed success / no_routing_found / data_error / query_error object."""
+well-formed success / no_routing_found / data_error / query_error object.
+Refresh-fault phase (tools/c17refresh.py): the fault hits the directory of a RUNNING healthy server (requests answered, connection
+sets cached), then /updateCache?names=all (schedule files: names=schedules first; scenario file: names=scenarios,schedules first); the server must stay up, answer the refresh,
+and answer every request like a server freshly started on the faulted directory."""
 import os, sys, time, json, shutil
 from concurrent.futures import ThreadPoolExecutor
-import build, checklib as cl, run, gen, l3, faults
+import build, checklib as cl, run, gen, l3, faults, c17refresh
 from check_c12 import cl_open
 
 DOC_DATA_CODES = {"DATA_ERROR", "MISSING_DATA_AGENCIES", "MISSING_DATA_SERVICES", "MISSING_DATA_NODES", "MISSING_DATA_LINES", "MISSING_DATA_PATHS",
@@ -68,6 +71,15 @@ def main(pid, tier, seed, replay_path=None):
         path = cl.write_nofail_replay(pid, "server build", str(e1))
         print("VIOLATION property=%s replay=%s no-failing-input-found" % (pid, path))
         return 1
+    if replay_path and c17refresh.is_replay(replay_path):
+        res = c17refresh.replay(binary, replay_path, san=san)
+        for (why, rd) in res["fails"][:6]:
+            print(c17refresh.describe(why, rd))
+        if res["fails"]:
+            print("VIOLATION property=%s replay=%s\n  refresh-fault history reproduced: %s" % (pid, replay_path, res["fails"][0][0]))
+            return 1
+        print("%s replay %s: the refresh-fault history passes (%s)" % (pid, replay_path, res["outcome_classes"]))
+        return 0
     rng = gen.Rng(seed * 3571 + 17)
     d = os.path.join(build.WORK, "scratch", "c17-%d-%s" % (seed, tier))
     shutil.rmtree(d, ignore_errors=True)
@@ -129,6 +141,9 @@ def main(pid, tier, seed, replay_path=None):
     with ThreadPoolExecutor(max_workers=12) as ex:
         results = list(ex.map(probe, jobs))
     stub.close()
+    t_startup = time.time() - t0
+    # ---- refresh-fault phase: the fault arrives while a healthy server runs, then /updateCache ---------------------------------
+    rf = c17refresh.run(binary, seed, tier, san=san)
     fails, outcomes = [], {}
     for r in results:
         cls = "died" if r["died"] else ("data_error" if any(a[1].startswith("data_error") for a in r["answers"]) else "serves")
@@ -150,6 +165,18 @@ def main(pid, tier, seed, replay_path=None):
                 fails.append(("fault '%s': the answer does not name the missing kind of data (%s)" % (r["label"], first[0]), r))
     rc, viol = 0, []
     os.makedirs(os.path.join(cl.REPLAYS, pid), exist_ok=True)
+    if rf["fails"]:
+        why, rd = rf["fails"][0]
+        path = c17refresh.write_replay(pid, why, rd)
+        print("VIOLATION property=%s replay=%s" % (pid, path))
+        print(c17refresh.describe(why, rd))
+        seen = set()
+        for (w, r2) in rf["fails"][1:]:
+            k = (r2.get("history"), r2.get("phase"), w[:60])
+            if k not in seen and len(seen) < 8:
+                seen.add(k)
+                print("  also: history %s [%s] %s" % (r2.get("history"), r2.get("phase"), w[:200]))
+        viol.append(path); rc = 1
     if fails:
         why, r = fails[0]
         path = os.path.join(cl.REPLAYS, pid, "%s-%d.txt" % (pid, int(time.time())))
@@ -159,7 +186,7 @@ def main(pid, tier, seed, replay_path=None):
         for w in sorted(set(x[0][:110] for x in fails))[:8]:
             print("  also:", w)
         viol.append(path); rc = 1
-    elif not po["ok"]:
+    elif not po["ok"] and not rf["fails"]:
         path = cl.write_nofail_replay(pid, "proof obligations of Properties_%s.v (%d of %d)" % (pid, po["discharged"], po["obligations"]), po["log"])
         print("VIOLATION property=%s replay=%s no-failing-input-found" % (pid, path))
         viol.append(path); rc = 1
@@ -168,8 +195,15 @@ def main(pid, tier, seed, replay_path=None):
                evaluations=len(results), distinct_nontrivial=len(set(r["label"] for r in results)),
                rule="fault enumeration on cache directories written from generated datasets: every file deleted / emptied; truncation offsets, single-bit flips and zeroed ranges (all offsets and bits of the files <= 400 bytes in the thorough tier, samples otherwise); the cross-file inconsistencies of the property's list; for each: start the real binary%s, one request per endpoint, /updateCache?names=all, the requests again; distinct = distinct (fault kind, file, argument)" % (" (ASan+UBSan build)" if san else ""),
                samples=[dict(fault=r["label"], answers=r["answers"][:4]) for r in results[:3]], fault_kinds=kinds, outcome_classes=outcomes,
-               violations=len(fails), exhaustive=False, sanitizers=san)
+               violations=len(fails) + len(rf["fails"]), exhaustive=False, sanitizers=san,
+               refresh_fault_rule="healthy start-up on a complete generated directory, 9 requests over 3 scenarios (connection sets cached, both cache modes); one fault applied to the directory on disk (every collection file deleted, all per-line files deleted, a per-stop / per-line file deleted; empty / truncated at a sampled offset / one bit flipped / a range zeroed on collection, per-line and per-stop files, the collection rotating with the seed; sampled cross-file inconsistencies); /updateCache?names=all (faults in schedule files: names=schedules first, faults in the scenario file: names=scenarios,schedules first, then names=all), the requests again after every refresh. Oracle: process alive after every step and ended only by our SIGTERM, no sanitizer report; /updateCache answered with the success object; every answer well-formed with a documented data error code and equal (canonical route / map / summary, errorCode, reason) to the answer of a server freshly started on the faulted directory; a deleted collection is named; where the fresh start-up stopped at an unreadable collection (it then reports the first collection it did not get to) the refreshed server, which goes on loading, is instead compared with a second healthy server started on other data and refreshed onto the same files (state after names=all is a function of the files alone)",
+               refresh_fault_histories=rf["histories"], refresh_fault_answers=rf["answers"], refresh_fault_updates=rf["updates"],
+               refresh_fault_kinds=rf["fault_kinds"], refresh_fault_targets=rf["fault_targets"], refresh_outcome_classes=rf["outcome_classes"],
+               refresh_history_independence_checks=rf["independence_checked"], refresh_fault_violations=len(rf["fails"]),
+               refresh_fault_samples=rf["labels"][:40], startup_phase_wall_s=round(t_startup, 1), refresh_phase_wall_s=rf["wall_s"])
     cl.write_evidence(pid, tier, seed, "proof", cov, ["byte level reduced to 'the decoder throws or yields a well-typed message' (Cap'n Proto's contract, trusted); collection loaders other than schedules/stop files are guarded by catch-alls in the source and are covered by the enumeration only"],
                       time.time() - t0, len(viol))
-    print("%s %s: obligations %d/%d, %d faulted directories %s -> %s, %d violations, %.1fs" % (pid, tier, po["discharged"], po["obligations"], len(results), kinds, outcomes, len(fails), time.time() - t0))
+    print("%s %s: obligations %d/%d, %d faulted directories %s -> %s, %d violations (%.1fs); refresh-fault phase: %d histories %s, %d answers, %d history-independence checks -> %s, %d violations (%.1fs); %.1fs"
+          % (pid, tier, po["discharged"], po["obligations"], len(results), kinds, outcomes, len(fails), t_startup, rf["histories"], rf["fault_kinds"], rf["answers"],
+             rf["independence_checked"], rf["outcome_classes"], len(rf["fails"]), rf["wall_s"], time.time() - t0))
     return rc
